@@ -99,6 +99,8 @@ class Highlighter(object):
 
         tokens = tokenize.tokenize(source_io.readline)
         line = ""
+        # The text of the physical line the last token was on
+        last_line = None
         for token_info in tokens:
             token_type, token_string, start, end, _ = token_info
             lineno = start[0]
@@ -120,11 +122,17 @@ class Highlighter(object):
                     lines += [""] * (diff - 1)
 
                 if current_type is not None:
-                    line += self._chunk(current_type, buffer.rstrip("\n"))
+                    buffer = buffer.rstrip("\n")
+                    if last_line is not None:
+                        # What no token covers: a backslash that continues the line
+                        buffer += last_line[current_col:].rstrip()
+
+                    line += self._chunk(current_type, buffer)
 
                 # New line
                 lines.append(line)
                 line = ""
+                last_line = None
                 current_line = lineno
                 current_col = 0
                 buffer = ""
@@ -169,11 +177,13 @@ class Highlighter(object):
                 current_line = end[0]
                 buffer = token_lines[-1][: end[1]]
                 line = ""
+                last_line = None
                 continue
 
             buffer += token_string
             current_col = end[1]
             current_line = lineno
+            last_line = token_info.line
 
         return lines
 
